@@ -509,7 +509,8 @@ class _Recorder(WalkMapper):
 
     def visit(self, expr, *args, **kwargs):
         self.events.append(("visit", expr, args, kwargs))
-        if isinstance(expr, (p.Expression, tuple, list, np.ndarray)) and walk.children(expr) \
+        if (isinstance(expr, (p.Expression, tuple, list, np.ndarray))
+                or walk.is_multivector(expr)) and walk.children(expr) \
                 and walk.key(expr, strict=True) in self.prune_keys:
             return False
         return True
@@ -854,7 +855,7 @@ def dispatch_case(draw):
 
 
 @st.composite
-def traversal_case(draw, nodes=S.ALL_COMPOSITE, wild=True, nan=True):
+def traversal_case(draw, nodes=S.ALL_COMPOSITE, wild=True, nan=True, mv=True):
     ex = draw(S.any_expr(draw(st.integers(1, 5)), nodes=nodes, wild=wild, nan=nan))
     if draw(st.integers(0, 9)) == 0:
         # object arrays of rank 1-3 (as a call argument or on their own): one node per
@@ -868,6 +869,12 @@ def traversal_case(draw, nodes=S.ALL_COMPOSITE, wild=True, nan=True):
                  for i in range(k)]
         arr = ["NpArray", items] if len(shape) == 1 else ["NpArray", items, shape]
         ex = arr if draw(st.booleans()) else ["Call", ["Var", "f"], [arr, ["Var", "x"]]]
+    elif mv and draw(st.integers(0, 11)) == 0:
+        # a multivector with expression coefficients (the traversals' map_multivector)
+        blades = draw(st.lists(st.integers(0, 7), min_size=1, max_size=3, unique=True))
+        mv = ["MultiVector", [[bl, ex if i == 0 else draw(
+            S.any_expr(1, nodes=nodes, wild=wild, nan=nan))] for i, bl in enumerate(blades)], 3]
+        ex = mv if draw(st.booleans()) else ["Call", ["Var", "f"], [mv, ["Var", "x"]]]
     names = sorted({s[1] for s in subspecs(ex) if s[0] == "Var"})
     return {"expr": ex,
             "rename": draw(st.lists(st.sampled_from(names), unique=True, max_size=2))
@@ -923,7 +930,7 @@ def generate(ctx):
                   ctx.n(9000, 160000))
     ctx.run_given(traversal_case(COMBINE_NODES, nan=False), lambda s: ctx.judge("combine", s),
                   ctx.n(6000, 100000))
-    ctx.run_given(traversal_case(CALLBACK_NODES, wild=False, nan=False),
+    ctx.run_given(traversal_case(CALLBACK_NODES, wild=False, nan=False, mv=False),
                   lambda s: ctx.judge("callback", s),
                   ctx.n(3000, 50000))
 
